@@ -122,7 +122,8 @@ def describe(name, cls):
         s.points = lin(0.2, 5.0); s.t = 2.0
         s.edges = [0.0, 1.0, 10.0, 12.0]      # piston face, x-tilde, xmax, beyond xmax
     elif pk == "ep_piston":
-        s.points = lin(0.001, 0.05); s.t = 0.05
+        # documented: the request must reach beyond the elastic wave ("reduce time or increase xmax"): a single point is the far one
+        s.points = (lambda n: [0.05] if n == 1 else lin(0.001, 0.05)(n)); s.t = 0.05
     elif pk == "guderley":
         s.cost = "veryslow"; s.t = 0.5
     elif name == "heat.cylindrical_sandwich.CylindricalSandwich":
@@ -200,9 +201,9 @@ ALT = {
     "heat.hutchens2.Hutchens2": {"TL": 3.0},
     "heat.rectangle.Rectangle": {"Ttop": 2.0, "kappa": 0.5},
     "heat.planar_sandwich.PlanarSandwich": {"TB": 2.0, "TT": 1.0},
-    "sedov.SphericalSedov": {"gamma": 5.0 / 3.0, "omega": 1.0},
-    "sedov.CylindricalSedov": {"gamma": 5.0 / 3.0, "eblast": 2.0},
-    "sedov.PlanarSedov": {"gamma": 5.0 / 3.0, "rho0": 2.0},
+    "sedov.SphericalSedov": {"gamma": 5.0 / 3.0},          # the geometry wrappers publish gamma only
+    "sedov.CylindricalSedov": {"gamma": 5.0 / 3.0},
+    "sedov.PlanarSedov": {"gamma": 5.0 / 3.0},
 }
 
 
@@ -226,7 +227,7 @@ def registry():
         v.kwargs = {"geometry": 3, "omega": 2.4, "gamma": 1.4}
         v.alt = {"geometry": 2, "omega": 1.7}
         # points between the vacuum boundaries at t and 1.3 t (0.070 / 0.088 and 0.133 / 0.163), inside, and at the shock
-        v.points = lambda n: [0.05, 0.08, 0.14, 0.3, 0.45, 0.58][:n] if n >= 6 else [0.08, 0.14, 0.3, 0.45][:n]
+        v.points = lambda n: [0.05, 0.08, 0.14, 0.22, 0.3, 0.45, 0.58][:n] if n >= 6 else [0.08, 0.14, 0.3, 0.45][:n]
         v.t = 1.0; v.cost = "slow"
         _CACHE[v.name] = v
     return _CACHE
